@@ -167,7 +167,20 @@ func runC16(r *Run) {
 				allowedErrSrc := func(c *ssa.Call) bool {
 					ci := callInfo(c)
 					if ci.Static != nil && strings.Contains(fnPkgPath(ci.Static), "/precompiles/") {
-						return true // argument decoders and the authorization helpers of the precompile packages
+						// argument decoders (they take the ABI-decoded argument list) and the authorization helpers of the
+						// precompile packages — not helpers that consult chain state for a pre-condition of their own
+						for _, p := range ci.Static.Params {
+							if sl, ok := p.Type().Underlying().(*types.Slice); ok {
+								if _, isI := sl.Elem().Underlying().(*types.Interface); isI {
+									return true
+								}
+							}
+						}
+						n := ci.Static.Name()
+						if pathHasSuffix(fnPkgPath(ci.Static), "precompiles/authorization") || strings.Contains(n, "Authz") || strings.Contains(n, "Authorization") || strings.Contains(n, "Allowance") || grantCheckWrapperOK(ci.Static) {
+							return true
+						}
+						return false
 					}
 					switch ci.Name {
 					case "ValAddressFromBech32", "AccAddressFromBech32", "UseGas":
@@ -656,6 +669,8 @@ func runC16(r *Run) {
 			"the message constructor can return a message that did not pass its own ValidateBasic(): the native route rejects such a message before delivery, the precompile executes it (e.g. a zero-amount delegate stores an empty delegation / unbonding entry)", P.witness(bad)...)
 	}
 	r.Floor("R9", "precompile message constructors", nCtor, 9)
+	r.Rule("R11", "see C02 R4t (imported, mirror targets): a StateDB balance write made by a handler is a mirror of the native message's bank change only if the account's state object was loaded before that change (the frame's caller, the origin, or an address read through the StateDB before the effect); a 'mirror' for any other address — a withdraw address, a validator account — is applied on top of a balance that already contains the change, so the precompile credits twice what the native message credits")
+	r.Import("R11/C02.", []string{"R4t"}, runC02)
 	// RunSetup
 	if rs, ok := P.FnOK("(precompiles/common.Precompile).RunSetup"); ok {
 		okMeter := false
